@@ -654,7 +654,6 @@ class TimeArray(TimeBase):
         return _read_only(np.array([d.hour * 60 * 60 + d.minute * 60 + d.second for d in self.datetime]))
 
     @property
-    @lru_cache()
     def mean(self):
         """Mean time
 
@@ -667,12 +666,10 @@ class TimeArray(TimeBase):
         return self._cls_scale(self.scale)(np.mean(self.utc.jd), fmt="jd")
 
     @property
-    @lru_cache()
     def min(self):
         return self[np.argmin(self.jd)]
 
     @property
-    @lru_cache()
     def max(self):
         return self[np.argmax(self.jd)]
 
